@@ -359,6 +359,125 @@ example := C17_callback_infallible ⟨[9], 1, []⟩ rfl [1, 2, 3]
 example :=
   C17_callback ⟨[], 0, [5]⟩ [1, 2, 3] (by decide)
 
+/-! ## temporary views, `…_mut` constructors, conversion traits, `into_inner`
+
+`Backend.xstep` is what the driver runs for `as_view` / `as_mut_view` / `cloned` /
+`into_inner`; the model functions are `Cursor.asView`, `asMutView`, `cloned`, `newAtPosMut`,
+`newAtWriteEndMut`, `intoReadWords…`, `asReadWords…`, `…SeekReadWords…`, `Callback.intoInner`.
+That the real methods behave like these functions is checked by correspondence (families
+"views", "conversions") and by the oracles; the theorems state what the model says. -/
+
+/-- `new_at_pos_mut` / `new_at_write_end_mut` are `new_at_pos` / `new_at_write_end` -/
+theorem C17_new_at_mut_eq (buf : List Nat) (p : Nat) :
+    Cursor.newAtPosMut buf p = Cursor.newAtPos buf p ∧
+    Cursor.newAtWriteEndMut buf = Cursor.newAtWriteEnd buf :=
+  ⟨rfl, rfl⟩
+
+/-- a view / copy starts as the same words at the same position -/
+theorem C17_view_start (k : Backend.ViewKind) (c : Cursor) : Backend.viewStart k c = c := by
+  cases k <;> rfl
+
+/-- **`as_view` and `cloned` read / seek (and, for the copy, write) exactly like the original
+    at the same position, and leave the original untouched** -/
+theorem C17_view_like_original (k : Backend.ViewKind) (hk : k ≠ .mutable) (s : Cur) (prog : List Op) :
+    Backend.Cur.viewStep k s prog =
+      match Cur.run (Backend.viewWritable k) (.fwd s.inner) prog with
+      | (outs, .ok _) => .ok (outs, s)
+      | (_, .error f) => .error f := by
+  unfold Backend.Cur.viewStep
+  rw [C17_view_start]
+  cases h : Cur.run (Backend.viewWritable k) (.fwd s.inner) prog with
+  | mk outs r =>
+    cases r with
+    | error f => rfl
+    | ok final =>
+      cases k with
+      | mutable => exact absurd rfl hk
+      | shared => cases s <;> rfl
+      | cloned => cases s <;> rfl
+
+/-- **writes through `as_mut_view` land in the parent buffer**: the view answers like a writable
+    cursor at the same position; afterwards the parent holds the words the view ended with, at
+    its own unchanged position -/
+theorem C17_as_mut_view_writes_land (s : Cur) (prog : List Op) :
+    Backend.Cur.viewStep .mutable s prog =
+      match Cur.run true (.fwd s.inner) prog with
+      | (outs, .ok final) =>
+        .ok (outs, match s with
+          | .fwd c => .fwd { c with buf := final.inner.buf }
+          | .rev r => .rev ⟨{ r.inner with buf := final.inner.buf }⟩)
+      | (_, .error f) => .error f := by
+  unfold Backend.Cur.viewStep
+  rw [C17_view_start]
+  rfl
+
+/-- under the invariant a view program of trait methods never faults, and the parent keeps
+    its invariant (the view cannot change the buffer length) -/
+theorem C17_as_mut_view_keeps_inv (s : Cur) (hI : s.Inv) (prog : List Op)
+    (hp : ∀ op ∈ prog, ∀ ws, op ≠ .bmSet ws) :
+    ∃ outs s', Backend.Cur.viewStep .mutable s prog = .ok (outs, s') ∧ s'.Inv ∧
+      s'.inner.pos = s.inner.pos ∧ s'.inner.buf.length = s.inner.buf.length := by
+  have hI' : (Cur.fwd s.inner).Inv := hI
+  obtain ⟨outs, final, h1, _, h3⟩ := Cur.run_len true prog (.fwd s.inner) hI' hp
+  have h3' : final.inner.buf.length = s.inner.buf.length := h3
+  rw [C17_as_mut_view_writes_land, h1]
+  cases s with
+  | fwd c =>
+    refine ⟨outs, _, rfl, ?_, rfl, h3'⟩
+    have : c.pos ≤ c.buf.length := hI
+    show c.pos ≤ final.inner.buf.length
+    rw [h3']; exact this
+  | rev r =>
+    refine ⟨outs, _, rfl, ?_, rfl, h3'⟩
+    have : r.inner.pos ≤ r.inner.buf.length := hI
+    show r.inner.pos ≤ final.inner.buf.length
+    rw [h3']; exact this
+
+example : Backend.xstep (.cur true (.fwd ⟨[1, 2, 3, 4], 1⟩)) (.view .mutable [.write 9, .readS, .raw]) =
+    .ok (.many [.ok, .word (some 9), .dump "fwd" [1, 9, 3, 4] 1], .cur true (.fwd ⟨[1, 9, 3, 4], 1⟩)) := rfl
+
+/-- **conversion traits**: the `Stack` flavours of `IntoReadWords`, `AsReadWords`,
+    `IntoSeekReadWords`, `AsSeekReadWords` are `Cursor::new_at_write_end`, the `Queue` flavours
+    `Cursor::new_at_write_beginning` -/
+theorem C17_conversions (buf : List Nat) :
+    Cursor.intoReadWordsStack buf = Cursor.newAtWriteEnd buf ∧
+    Cursor.asReadWordsStack buf = Cursor.newAtWriteEnd buf ∧
+    Cursor.intoSeekReadWordsStack buf = Cursor.newAtWriteEnd buf ∧
+    Cursor.asSeekReadWordsStack buf = Cursor.newAtWriteEnd buf ∧
+    Cursor.intoReadWordsQueue buf = Cursor.newAtWriteBeginning buf ∧
+    Cursor.asReadWordsQueue buf = Cursor.newAtWriteBeginning buf ∧
+    Cursor.intoSeekReadWordsQueue buf = Cursor.newAtWriteBeginning buf ∧
+    Cursor.asSeekReadWordsQueue buf = Cursor.newAtWriteBeginning buf :=
+  ⟨rfl, rfl, rfl, rfl, rfl, rfl, rfl, rfl⟩
+
+/-- `as_read_words` (Stack) of a `Vec` reads it as a stack from its end, the `Queue` flavour
+    reads it in order from the start; then end-of-data -/
+theorem C17_as_read_words_reads (buf : List Nat) (m : Nat) :
+    (Cur.run false (.fwd (Cursor.asReadWordsStack buf)) (List.replicate (buf.length + m) Op.readS)).1 =
+      buf.reverse.map (fun w => Out.word (some w)) ++ List.replicate m (Out.word none) ∧
+    (Cur.run false (.fwd (Cursor.asReadWordsQueue buf)) (List.replicate (buf.length + m) Op.readQ)).1 =
+      buf.map (fun w => Out.word (some w)) ++ List.replicate m (Out.word none) := by
+  have hs := (C17_cursor_reads_view false (.fwd (Cursor.asReadWordsStack buf))
+    (by simp [Cur.Inv, Cur.inner, Cursor.Inv, Cursor.asReadWordsStack, Cursor.newAtWriteEnd]) m).1
+  have hq := (C17_cursor_reads_view false (.fwd (Cursor.asReadWordsQueue buf))
+    (by simp [Cur.Inv, Cur.inner, Cursor.Inv, Cursor.asReadWordsQueue, Cursor.newAtWriteBeginning]) m).2
+  simp only [Cur.stackView, Cursor.asReadWordsStack, Cursor.newAtWriteEnd, List.take_length,
+    List.length_reverse] at hs
+  simp only [Cur.queueView, Cursor.asReadWordsQueue, Cursor.newAtWriteBeginning, List.drop_zero] at hq
+  exact ⟨hs, hq⟩
+
+example : (Cur.run false (.fwd (Cursor.asReadWordsStack [1, 2, 3])) (List.replicate (3 + 1) Op.readS)).1 =
+    [.word (some 3), .word (some 2), .word (some 1), .word none] :=
+  (C17_as_read_words_reads [1, 2, 3] 1).1
+
+/-- `into_inner` returns the callback intact: calling it directly is the adapter's `write` -/
+theorem C17_callback_into_inner (cb : Callback) (w : Nat) :
+    Backend.xstep (.cbF cb) (.intoInnerCall w) = Backend.xstep (.cbF cb) (.base (.write w)) ∧
+    Backend.xstep (.cbI cb) (.intoInnerCall w) = Backend.xstep (.cbI cb) (.base (.write w)) := by
+  constructor
+  · cases h : (cb.write w).1 <;> simp [Backend.xstep, Backend.step, Callback.intoInner, h]
+  · simp [Backend.xstep, Backend.step, Callback.intoInner]
+
 end CV.Backend.C17
 
 #print axioms CV.Backend.C17.C17_constructors_inv
@@ -393,3 +512,11 @@ end CV.Backend.C17
 #print axioms CV.Backend.C17.C17_cursor_write_overwrites
 #print axioms CV.Backend.C17.C17_vec_seek_back
 #print axioms CV.Backend.C17.C17_vec_seek_forward_refused
+#print axioms CV.Backend.C17.C17_new_at_mut_eq
+#print axioms CV.Backend.C17.C17_view_start
+#print axioms CV.Backend.C17.C17_view_like_original
+#print axioms CV.Backend.C17.C17_as_mut_view_writes_land
+#print axioms CV.Backend.C17.C17_as_mut_view_keeps_inv
+#print axioms CV.Backend.C17.C17_conversions
+#print axioms CV.Backend.C17.C17_as_read_words_reads
+#print axioms CV.Backend.C17.C17_callback_into_inner
